@@ -77,6 +77,7 @@ type Ctx struct {
 	ticks     int64
 	shrinks   map[string]int
 	expired   bool
+	firstCur  []string
 }
 
 const maxViolPerWorker = 40
@@ -164,7 +165,9 @@ func (c *Ctx) Sample(s any) {
 // Cur publishes the case being executed (for hang/crash attribution).
 func (c *Ctx) Cur(s string) {
 	c.cur.Store(s)
-	c.curN.Add(1)
+	if n := c.curN.Add(1); n == 1 || n == 1000 || n == 50000 {
+		c.firstCur = append(c.firstCur, s) // fallback samples: cases that were actually executed
+	}
 	if traceFile != nil {
 		traceFile.WriteAt([]byte(fmt.Sprintf("%08d", len(s))+s), 0)
 	}
@@ -256,6 +259,11 @@ func (c *Ctx) ShrinkOK(kind string) bool {
 func (c *Ctx) Saturated() bool { return len(c.res.Violations) >= c.maxViol }
 
 func (c *Ctx) finish() Result {
+	if len(c.res.Samples) == 0 {
+		for _, s := range c.firstCur {
+			c.res.Samples = append(c.res.Samples, s)
+		}
+	}
 	for name, m := range c.distinct {
 		c.res.Counters["distinct:"+name] = int64(len(m))
 		c.SetMax("distinct_max_shard:"+name, int64(len(m)))
